@@ -20,6 +20,7 @@ package reorgdetector
 //@   ensures notifyCalls == old(notifyCalls) + 1 && lastNotified == startingBlock.Num
 
 //@ func (rd *ReorgDetector) removeTrackedBlockRange
+//@   props C06
 //@   trusted
 //@   sqltext "DELETE FROM tracked_block WHERE num >= $1 AND num <= $2 AND subscriber_id = $3;"
 //@   requires[range-dropped-only-after-the-subscriber-rewound] fromBlock == toBlock || (notifyCalls > 0 && lastNotified == fromBlock)
